@@ -212,6 +212,12 @@ impl Prog {
     pub fn kind(&self) -> MacroKind {
         macro_kind(&self.mac)
     }
+    /// a thread-spawning macro with an explicit `lazy_branches(false)`: branch expressions are handed to the
+    /// threads as they are (the renderer ends every step in `-> defer`)
+    pub fn eager_spawn(&self) -> bool {
+        let k = self.kind();
+        k.is_spawn && !k.is_async && self.opts.lazy == Some(false)
+    }
     pub fn depths(&self) -> Vec<usize> {
         self.branches.iter().map(|b| b.steps.len()).collect()
     }
